@@ -181,6 +181,7 @@ Definition sub1 : subset :=
          SMarkup [10] MElement (b " r (#PCDATA|c)*");
          SMarkup [] MAttlist (b " r a CDATA ""<&'"" xmlns:p CDATA #FIXED 'urn:x'");
          SMarkup [32] MElement [];
+         SMarkup [10] MNotation (b " gt SYSTEM '>""' ""]>'""");      (* '>' and the other quote inside a literal *)
          SEntity (gdecl (b "n") [elit "v"; E.EP (T.PCharRef true (b "41")); E.EP (T.PPredef T.Gt)]);
          SMisc [10] (IPI (b "pi") [32] (b "in the subset"));
          SEntity (gdecl (b "u") [elit "ignored"]) ];
@@ -233,7 +234,8 @@ Example exp_rej : forallb (fun t => in_fragment_p (b t) && negb (acc (b t)))
     "<!DOCTYPE r PUBLIC 'p'><r/>"; "<!DOCTYPE r [<r/>]><r/>"; "<!DOCTYPE r [<!ELEMENT r ANY]><r/>";
     "<!DOCTYPE r [<![CDATA[x]]>]><r/>"; "<!DOCTYPE r [] ]><r/>"; "<!DOCTYPE [<!ENTITY e 'v'>]><r/>"; "<!DOCTYPE r SYSTEM><r/>";
     "<!DOCTYPE r [<!ENTITY e SYSTEM 'x' NDATA>]><r/>"; "<!DOCTYPE r [<!ENTITY %e 'v'>]><r/>"; "<!DOCTYPE r>";
-    "<!DOCTYPE r [<!ATTLIST r a CDATA '>'>]><r/>"; "<!DOCTYPE r SYSTEM'x'><r/>" ]%string = true.
+    "<!DOCTYPE r [<!ATTLIST r a CDATA '>]><r/>"; "<!DOCTYPE r [<!ELEMENT r (a"")>]><r/>";   (* an unclosed literal in a skipped declaration *)
+    "<!DOCTYPE r SYSTEM'x'><r/>" ]%string = true.
 Proof. vm_compute. reflexivity. Qed.
 
 (* FINDINGS and documented leniencies: accepted, not renderings of S5 documents; each is excluded by
